@@ -373,7 +373,7 @@ func c13Scenarios(disk bool) []*schedScenario {
 		}
 	}
 	if !disk {
-		scs = append(scs, ocspSharedResponderScenario("C13"), ocspTwoLifetimesScenario("C13"))
+		scs = append(scs, ocspSharedResponderScenario("C13"), ocspTwoLifetimesScenario("C13"), ocspTwoPoliciesScenario("C13"))
 	}
 	// s10: first use of two different distribution points at the same time (two new entries in the repository map)
 	scs = append(scs, &schedScenario{Name: name("s10-first-use-two-locations"),
@@ -774,6 +774,32 @@ func ocspTwoLifetimesScenario(prop string) *schedScenario {
 		Judge: func(obs []string) (string, string) {
 			if obs[2] != "zero-duration-checker-after-the-flip:REVOKED" {
 				return prop + "|status-kept-under-another-checkers-lifetime|ocsp", "a checker with default_cache_duration 0 was asked while a checker with 1h was asking about the same certificate; after the responder flipped to revoked: " + obs[2]
+			}
+			return "", ""
+		},
+	}
+}
+
+// ocspTwoPoliciesScenario (s8f): two checkers of the process, ocsp_aia_strict on and off, are asked about the same
+// certificate at the same moment; its only responder answers with something which is no OCSP response. Each checker
+// applies its own policy: the strict one denies, the lenient one accepts - in every schedule.
+func ocspTwoPoliciesScenario(prop string) *schedScenario {
+	oc := newC14Cast()
+	look := func(i int, name string) schedOp {
+		return schedOp{Name: name, Fn: func(x *schedCtx) string {
+			return x.Vals["ow"].([]*OW)[i].Lookup(oc.c2, world.Chain(oc.c2, oc.caA, oc.p.Root)).String()
+		}}
+	}
+	return &schedScenario{Name: "s8f-ocsp-strict-and-lenient-checker-same-moment", Class: "ocsp",
+		Setup: func(x *schedCtx) {
+			net := world.NewNet()
+			net.Serve(c14URLA, "html", []byte("<html><body>maintenance</body></html>"))
+			x.Vals["ow"] = []*OW{NewOW(true, 10*time.Minute, nil, net), NewOW(false, 10*time.Minute, nil, net)}
+		},
+		Ops: []schedOp{look(0, "ocsp(strict checker,c2)"), look(1, "ocsp(lenient checker,c2)")},
+		Judge: func(obs []string) (string, string) {
+			if obs[0] != "ERR" || obs[1] != "OK" {
+				return prop + "|policy-of-another-checker-applied|ocsp", fmt.Sprintf("a strict and a lenient checker asked about one certificate at the same moment, the responder gives no answer: the strict checker reads %s (expected ERR), the lenient one %s (expected OK)", obs[0], obs[1])
 			}
 			return "", ""
 		},
